@@ -548,6 +548,10 @@ def _nx(ctx, lo=16):
     rng = ctx.rng
     hi = 4096 if ctx.thorough else 512
     r = rng.random()
+    if lo <= 16 and r < 0.05:
+        # segment lengths as used on long records (an implementation may block or pad above some size)
+        ctx.count("oracle_long_segment")
+        return rng.choice([1024, 2048, 4096, 8192, 5000, 4098])
     if r < 0.5:
         return rng.choice([v for v in (16, 32, 64, 128, 256, 512, 1024, 2048, 4096) if lo <= v <= hi])
     if r < 0.85:
